@@ -22,6 +22,7 @@ type ModSets struct {
 	done      bool
 	frozen    map[string]bool
 	cellOwner map[string]*ssa.Function
+	globalUse map[*ssa.Function]map[string]bool // module globals (transitively) referenced
 }
 
 func newModSets(w *World, sp *Specs) *ModSets {
@@ -437,6 +438,7 @@ func (m *ModSets) compute() {
 			}
 		}
 	}
+	m.computeGlobalUse()
 	m.done = true
 }
 
@@ -601,4 +603,61 @@ func freshRoot(addr ssa.Value) bool {
 		}
 	}
 	return false
+}
+
+// computeGlobalUse: which package-level variables a function can reach (itself or through module callees).
+func (m *ModSets) computeGlobalUse() {
+	m.globalUse = map[*ssa.Function]map[string]bool{}
+	for _, fn := range m.w.AllFn {
+		u := map[string]bool{}
+		for _, b := range fn.Blocks {
+			for _, in := range b.Instrs {
+				var ops []*ssa.Value
+				for _, op := range in.Operands(ops) {
+					if op == nil || *op == nil {
+						continue
+					}
+					if g, ok := (*op).(*ssa.Global); ok && g.Pkg != nil && isModPath(g.Pkg.Pkg.Path()) {
+						u[g.Pkg.Pkg.Name()+"."+g.Name()] = true
+					}
+				}
+			}
+		}
+		m.globalUse[fn] = u
+	}
+	changed := true
+	for changed {
+		changed = false
+		for _, fn := range m.w.AllFn {
+			u := m.globalUse[fn]
+			for _, c := range m.callees[fn] {
+				for k := range m.globalUse[c] {
+					if !u[k] {
+						u[k] = true
+						changed = true
+					}
+				}
+			}
+		}
+	}
+}
+
+// cannotReturnGlobal: no possible callee of the call can reach the named package-level variable.
+func (m *ModSets) cannotReturnGlobal(call *ssa.CallCommon, global string) bool {
+	callees, _ := m.staticCallees(call)
+	for _, c := range callees {
+		if m.globalUse[c][global] {
+			return false
+		}
+	}
+	if _, ok := call.Value.(*ssa.Builtin); ok {
+		return true
+	}
+	if call.IsInvoke() || len(callees) > 0 {
+		return true
+	}
+	if f, ok := call.Value.(*ssa.Function); ok && !inModule(f) {
+		return true
+	}
+	return false // dynamic call through an unknown function value
 }
